@@ -417,6 +417,18 @@ theorem slStep_inv {kc : Consts α} {c : TrConsts α} {sqrt : α → α} {g rho 
   obtain ⟨con₂, h4, s₂, h5, rfl, rfl, rfl, rfl, rfl⟩ := h
   exact ⟨con₁, r₁, s₁, h1, h2, h3, h4, h5⟩
 
+/-! ### `SetSpeedTrainSim::walk` -/
+
+/-- `SetSpeedTrainSim::walk` as a fold of the model's `ssStep` over the trace samples after `p`
+    (the Rust loop runs `i = 1 .. len`, step `i` reads samples `i-1` and `i`) -/
+def ssWalk (kc : Consts α) (c : TrConsts α) (g rho : α) (t : Tpc α) :
+    ResStrap α × Consist α × TrainState α → α × α → List (α × α) →
+      Res (ResStrap α × Consist α × TrainState α)
+  | st, _, [] => .ok st
+  | (res, con, s), p, q :: tr =>
+    (ssStep kc c g rho t res con s p.2 q.2 p.1 q.1).bind fun x =>
+      ssWalk kc c g rho t (x.2.1, x.1, x.2.2) q tr
+
 /-! ### Concrete data over `ℚ` for a WHOLE accepted `ssStep` (one diesel unit, a 1 kg "train") -/
 namespace ExW
 
